@@ -227,7 +227,7 @@ def run_rest(ctx, PM, f, FLAG):
         n6 = engine.take_over(ctx, c2.obs, lambda o: o.rule == "C10.3" and o.key.endswith("|version-gate-table"), "C12.6")
         ctx.floor("C12.6 obligations taken from the version gate", n6, 1)
     except CheckerError as e:
-        ctx.ob("C12.6", "version-gate", "the version gate of the parser could be evaluated", False, PM.file, str(e))
+        raise CheckerError("C12.6 (the version gate of the parser could not be evaluated): %s" % e)
     # ---- C12.7 a connection that stays open goes on being served after a request whose body was not read: the drain takes exactly the bytes
     # owed, not the start of the next request (rules of C09.2)
     import drain_rules as DR
